@@ -299,15 +299,15 @@ class BaseDiscretizer(BaseEstimator, TransformerMixin):
             if self.copy:
                 x_copy = X.copy()
 
-            # casting features for multiclass targets
-            x_copy = self._cast_features(x_copy)
-
-            # checking for input columns
-            missing_columns = [feature for feature in self.features if feature not in x_copy]
+            # checking for input columns (raw columns, before they are casted for multiclass targets)
+            missing_columns = [feature for feature in self.features_casting if feature not in x_copy]
             assert len(missing_columns) == 0, (
                 f" - [Discretizer] Requested discretization of {str(missing_columns)} but those"
                 " columns are missing from provided X. Please check your inputs! "
             )
+
+            # casting features for multiclass targets
+            x_copy = self._cast_features(x_copy)
 
             if y is not None:
                 # checking for y's type
